@@ -290,6 +290,35 @@ func checkC17Decode(r *run, c *FixedCase) (CaseInfo, error) {
 						return ci, failf("AbsCaptureTime.Unmarshal(%s): %v", hx(raw), err)
 					}
 				}
+				{
+					// the next packet of a stream usually carries the same offset: a stored value copy of the first
+					// decode and the receiver's second decode are two values, writing through one must not reach the other
+					wireOff := int64(binary.BigEndian.Uint64(raw[8:]))
+					kept := d
+					next := clone(raw)
+					next[7]++
+					if err := d.Unmarshal(next); err != nil || d.EstimatedCaptureClockOffset == nil {
+						return ci, failf("AbsCaptureTime.Unmarshal(%s): %v", hx(next), err)
+					}
+					*d.EstimatedCaptureClockOffset ^= 0x7F0F
+					if kept.EstimatedCaptureClockOffset == nil || *kept.EstimatedCaptureClockOffset != wireOff {
+						return ci, failf("a value copy of an extension decoded from %s reads offset %v after the receiver decoded %s (same offset) and the caller wrote through the receiver's pointer", hx(raw), *kept.EstimatedCaptureClockOffset, hx(next))
+					}
+					// a receiver that already pointed at a variable of the caller holding this very offset
+					own := wireOff
+					held := rtp.AbsCaptureTimeExtension{Timestamp: c.A, EstimatedCaptureClockOffset: &own}
+					if err := held.Unmarshal(raw); err != nil || held.EstimatedCaptureClockOffset == nil {
+						return ci, failf("AbsCaptureTime.Unmarshal(%s): %v", hx(raw), err)
+					}
+					own ^= 0x3C3C
+					if *held.EstimatedCaptureClockOffset != wireOff {
+						return ci, failf("AbsCaptureTime.Unmarshal(%s) into a receiver that pointed at the caller's variable (same value %d): the decoded offset follows that variable (%d after the caller changed it)", hx(raw), wireOff, *held.EstimatedCaptureClockOffset)
+					}
+					ci.class("decode-same-offset-again")
+					if err := d.Unmarshal(raw); err != nil {
+						return ci, failf("AbsCaptureTime.Unmarshal(%s): %v", hx(raw), err)
+					}
+				}
 				// the decoded value belongs to the caller (a relay adds its own clock difference through the
 				// pointer): that must not reach what a later decode of the same bytes yields
 				*d.EstimatedCaptureClockOffset += 0x100000001
@@ -521,7 +550,7 @@ func enumC17(r *run) bool {
 	return true
 }
 
-const ruleC17 = "complete enumeration of the finite value domains (AudioLevel 2x256, TransportCC 2^16, PlayoutDelay boundary rows and out-of-range values in quick / all 2^24 pairs in thorough, AbsSendTime 2^16 spread values in quick / all 2^24 in thorough, every input length 0..size+2 with preloaded receivers) plus rapid-drawn cases for the 64-bit domains (AbsSendTime 64-bit timestamps, AbsCaptureTime timestamps with/without int64 offsets) and random decode inputs of every length 0..size+2 and of size+{3..255}, occasionally 65536+{0..size+2} (a third of them with runs of 0x00/0xFF, e.g. a zero offset field); oracle: hand-written bit layouts of the specifications, error and no bytes for out-of-range values, decode independent of previous receiver content, trailing bytes ignored, short input rejected, Unmarshal(Marshal(v)) = v, and Marshal gives the same bytes again after the caller overwrote and appended to the buffer an earlier call returned; a decoded AbsCaptureTime offset is changed through its pointer and the same bytes decoded again; a value copy of a decoded extension keeps its offset when the receiver decodes other bytes. Every case is non-trivial (each checks one value or one input against the layout); distinct = enumerated values are distinct by construction, drawn ones by FNV-64 of the JSON case"
+const ruleC17 = "complete enumeration of the finite value domains (AudioLevel 2x256, TransportCC 2^16, PlayoutDelay boundary rows and out-of-range values in quick / all 2^24 pairs in thorough, AbsSendTime 2^16 spread values in quick / all 2^24 in thorough, every input length 0..size+2 with preloaded receivers) plus rapid-drawn cases for the 64-bit domains (AbsSendTime 64-bit timestamps, AbsCaptureTime timestamps with/without int64 offsets) and random decode inputs of every length 0..size+2 and of size+{3..255}, occasionally 65536+{0..size+2} (a third of them with runs of 0x00/0xFF, e.g. a zero offset field); oracle: hand-written bit layouts of the specifications, error and no bytes for out-of-range values, decode independent of previous receiver content, trailing bytes ignored, short input rejected, Unmarshal(Marshal(v)) = v, and Marshal gives the same bytes again after the caller overwrote and appended to the buffer an earlier call returned; a decoded AbsCaptureTime offset is changed through its pointer and the same bytes decoded again; a value copy of a decoded extension keeps its offset when the receiver decodes other bytes, or the same offset again and the caller writes through the receiver's pointer; a receiver that pointed at a variable of the caller holding the very offset on the wire yields an offset that does not follow that variable. Every case is non-trivial (each checks one value or one input against the layout); distinct = enumerated values are distinct by construction, drawn ones by FNV-64 of the JSON case"
 
 func TestC17(t *testing.T) {
 	r := begin(t, "C17", "exploration", ruleC17)
